@@ -42,6 +42,7 @@ EXECS=$(grep -h "stat::number_of_executed_units" "$WORK"/fuzz-*.log 2>/dev/null 
 COV=$(grep -h "cov:" "$WORK"/fuzz-*.log 2>/dev/null | sed 's/.*cov: \([0-9]*\).*/\1/' | sort -n | tail -1)
 CORP=$(ls "$WORK/corpus" | wc -l)
 echo "FUZZ target=$T executions=$EXECS max_cov=${COV:-0} corpus_files=$CORP seeds=$n"
+rm -rf "$ROOT"/out/scratch-fuzz-* 2>/dev/null
 ART=$(ls "$WORK/artifacts" 2>/dev/null | head -1)
 if [ -n "$ART" ]; then
   mkdir -p "$ROOT/out/replays"; cp "$WORK/artifacts/$ART" "$ROOT/out/replays/$T-$ART"
